@@ -319,12 +319,15 @@ fn knn_with<D: Distance<Vec<f64>, f64>>(case: &KnnCase, dist: D, ctx: &mut Ctx) 
     let tag = if case.classifier { "knn_classifier" } else { "knn_regressor" };
     let pred: Result<Result<Vec<f64>, String>, String> = if case.classifier {
         catch(|| {
-            let m = KNNClassifier::fit(&x, &case.y, KNNClassifierParameters::default().with_k(k).with_algorithm(alg.clone()).with_weight(w.clone()).with_distance(dist.clone())).map_err(|e| format!("fit: {}", e))?;
+            // builder calls in two orders (a setter that rebuilds from the defaults would lose earlier settings)
+            let params = if case.data.len() % 2 == 0 { KNNClassifierParameters::default().with_k(k).with_algorithm(alg.clone()).with_weight(w.clone()).with_distance(dist.clone()) } else { KNNClassifierParameters::default().with_distance(dist.clone()).with_weight(w.clone()).with_algorithm(alg.clone()).with_k(k) };
+            let m = KNNClassifier::fit(&x, &case.y, params).map_err(|e| format!("fit: {}", e))?;
             m.predict(&q).map_err(|e| format!("predict: {}", e))
         })
     } else {
         catch(|| {
-            let m = KNNRegressor::fit(&x, &case.y, KNNRegressorParameters::default().with_k(k).with_algorithm(alg.clone()).with_weight(w.clone()).with_distance(dist.clone())).map_err(|e| format!("fit: {}", e))?;
+            let params = if case.data.len() % 2 == 0 { KNNRegressorParameters::default().with_k(k).with_algorithm(alg.clone()).with_weight(w.clone()).with_distance(dist.clone()) } else { KNNRegressorParameters::default().with_distance(dist.clone()).with_weight(w.clone()).with_algorithm(alg.clone()).with_k(k) };
+            let m = KNNRegressor::fit(&x, &case.y, params).map_err(|e| format!("fit: {}", e))?;
             m.predict(&q).map_err(|e| format!("predict: {}", e))
         })
     };
